@@ -135,6 +135,58 @@ func VH_distinct_Pass() {
 	}
 }
 
+// vSrcBig hands out words that keep almost everything: the low three bits of
+// the first word are solver variables, every later word evicts exactly one of
+// its 64 elements (so that every pass makes progress and the run is finite).
+type vSrcBig struct {
+	draws int
+}
+
+func (s *vSrcBig) Uint64() uint64 {
+	s.draws++
+	if s.draws == 1 {
+		return vUint64("rnd") | ^uint64(7)
+	}
+	return ^uint64(1)
+}
+
+// VH_distinct_Big: buffers at and beyond plausible internal thresholds (64-bit
+// word boundary, 1024, 2048): fill to one below capacity (exact), trigger one
+// pass that keeps almost everything, then Reset and reuse.
+func VH_distinct_Big() {
+	size := vCase("size")
+	src := &vSrcBig{}
+	c := NewCounter[int](size)
+	c.rng = src
+	for i := 0; i < size-1; i++ {
+		c.Add(i)
+	}
+	vAssert(c.Len() == size-1 && int(c.Count()) == size-1 && src.draws == 0, "filling below capacity is exact")
+	c.Add(size - 1)
+	vCover("bigpass")
+	k := vK(c.p)
+	vAssert(k >= 1, "a pass halves the probability")
+	vAssert(c.Len() < size, "after the passes the buffer is below its size")
+	vAssert(c.Count() == uint64(c.Len())<<uint(k), "Count is Len times 2^k")
+	if k == 1 {
+		// one pass over `size` elements consumes exactly ceil(size/64) words and
+		// each word but the first evicted one element
+		words := (size + 63) / 64
+		vAssert(src.draws == words, "a pass draws one word per 64 buffered elements")
+		vAssert(c.Len() <= size-(words-1) && c.Len() >= size-(words-1)-3, "each element's survival is decided by its own bit")
+	}
+	c.Reset()
+	c.rng = src
+	vAssert(c.Len() == 0 && c.Count() == 0, "Reset empties the counter")
+	vAssert(vK(c.p) == 0, "Reset restores probability one")
+	d0 := src.draws
+	for i := 0; i < size-1; i++ {
+		c.Add(5000 + i)
+	}
+	c.Add(5000)
+	vAssert(int(c.Count()) == size-1 && c.Len() == size-1 && src.draws == d0, "after Reset the counter is exact again")
+}
+
 func VT_distinct_exact() {
 	c := NewCounter[int](8)
 	var cs []int
